@@ -153,7 +153,8 @@ def rand_info(rng):
     cpr = rng.sample(HOLDER_LINES, rng.randint(0, 2))
     lic = rng.sample(LICS, rng.randint(0, 2))
     con = rng.sample(CONTRIBS, rng.choice([0, 0, 1, 2]))
-    if not cpr and not lic:
+    if not cpr and not lic and (not con or rng.random() < 0.5):
+        # a request may consist of contributors only (every non-empty subset of the three kinds of information is valid)
         cpr = [HOLDER_LINES[0]]
     return cpr, lic, con
 
